@@ -213,8 +213,9 @@ PROPS = {
         rule=("rapid cases: op in {Storage.Set, Database.SaveEntity}, key from hc's own keys, old value absent/0..4096 bytes, new value 0..4096 bytes, 0..3 other keys; every crash point of each case is executed. "
               "evaluations counts cases; coverage.extra.crash_points_explored counts child executions. Non-trivial: old value present and of a different length than the new one. Distinct by (op, key, old, new)."),
         assumptions=["a crash is a process kill between two file-system calls"],
-        essential_classes=["op:set", "op:save-entity", "op:transport-start", "transport:structure-changed", "old:absent", "new-shorter", "new-longer", "regress"],  # op:set(traced) is reported but not essential: strace may be unavailable in a sandbox
+        essential_classes=["op:set", "op:save-entity", "op:transport-start", "op:first-start-on-empty-storage", "transport:structure-changed", "old:absent", "new-shorter", "new-longer", "regress"],  # op:set(traced) is reported but not essential: strace may be unavailable in a sandbox
         jobs=[
+            dict(test="TestC19FirstStart", kind="plain"),
             dict(test="TestC19Regress", kind="plain"),
             dict(test="TestC19Prop", kind="rapid", checks={Q: 12, T: 300}, shards=12),
             dict(test="TestC19Transport", kind="rapid", checks={Q: 3, T: 40}, shards=4),
@@ -345,6 +346,9 @@ PROPS = {
                            T: ["history", "restart:structure-changed", "restart:same-structure", "codes:eight-digit", "strings:non-ascii-digits", "uri:flags=2", "transport-pin", "pair:database", "pair:protocol", "unpair:protocol", "unpair:database", "paired-controller-verifies-after-restart"]},
         exhaustive={Q: False, T: False},
         jobs=[
+            # killed starts (the crash machinery lives in the c19 package): identity, c# and discoverability after the next start
+            dict(test="TestC19FirstStart", kind="plain", pkg="c19"),
+            dict(test="TestC19Transport", kind="rapid", pkg="c19", checks={Q: 4, T: 40}, shards={Q: 2, T: 8}),
             dict(test="TestC20Codes", kind="plain", shards={Q: 4, T: 16}),
             dict(test="TestC20TransportPins", kind="plain"),
             dict(test="TestC20Strings", kind="rapid", checks={Q: 3000, T: 100000}, shards=4),
